@@ -21,6 +21,7 @@
 -/
 import LW.Proofs.C13Field
 import LW.Proofs.C13Complex
+import LW.Proofs.C13FullSwap
 
 namespace LW.C13
 
@@ -110,10 +111,11 @@ theorem CCZ_table_tower : HasTable eqvRel cCCZ.i (CCZ cCCZ) 3 kCCZ namedCZ false
 
 `SWAP(q1, q2)` is `mode_swaps({a0: b0, b0: a0, a1: b1, b1: a1})` on `max + 1` modes.  Its
 statement for all mode pairs — the two-photon amplitude of a permutation matrix is 1 exactly on
-the permuted state — is kept as a `Prop`; it is not proved here (it needs the permanent of a
-2×2 sub-matrix of `permMat` for symbolic modes and the insertion-sort invariance used by
-`ModeSwaps`' validation).  The constructor and its amplitudes are compared with the code on random
-mode pairs on every run (harness/props/c13.py), and instances are decided below. -/
+the permuted state — is the `Prop` `SWAP_statement`, proved as `SWAP_all_pairs` below (the
+permanent of a 2×2 sub-matrix of `permMat` for symbolic modes and the insertion-sort invariance used
+by `ModeSwaps`' validation are in LW/Proofs/C13Full*.lean).  The constructor and its amplitudes
+are also compared with the code on random mode pairs on every run (harness/props/c13.py), and
+instances are decided by the kernel in `SWAP_partial`. -/
 
 def SWAP_statement : Prop :=
   ∀ (R : Type) [CommRing R] (i : R) (a0 a1 b0 b1 : Nat), [a0, a1, b0, b1].Nodup →
@@ -129,5 +131,11 @@ over the exact ring `T1` (kernel decision; `swapOK` is the executable form of th
 theorem SWAP_partial :
     swapOK [0, 1] [2, 3] = true ∧ swapOK [2, 3] [0, 1] = true ∧ swapOK [4, 1] [0, 3] = true :=
   Gates.SWAP_instances
+
+/-- **SWAP for all mode pairs**: the full statement, for every commutative ring of scalars and every
+four distinct modes (LW/Proofs/C13FullStruct.lean, C13FullFock.lean, C13FullSwap.lean: the
+constructor evaluated symbolically, `U_full` = the permutation matrix of the dictionary, and the
+permanent of its 2×2 sub-matrix between two-photon states by case analysis) -/
+theorem SWAP_all_pairs : SWAP_statement := Gates.SWAP_all_pairs
 
 end LW.C13
